@@ -314,6 +314,11 @@ def rand_facets(rng, kind):
     elif kind == 'Decimal':
         for k in rng.sample(['ge', 'le'], rng.randint(0, 2)):
             f[k] = decimal.Decimal(rng.choice(('0', '1.5', '100', '-3')))
+        if rng.random() < .3:
+            f['max_str_len'] = rng.choice((6, 10, 40))
+        if rng.random() < .2:
+            f['total_digits'] = rng.choice((5, 9))
+            f['fraction_digits'] = rng.choice((0, 2, 5))
     elif kind == 'Unicode':
         for k in rng.sample(['min_len', 'max_len', 'pattern', 'values'], rng.randint(0, 2)):
             f[k] = {'min_len': rng.choice((0, 1, 2, 3)), 'max_len': rng.choice((1, 3, 4, 60)), 'pattern': rng.choice(('a+', '[a-c]*', 'x{50}', '[0-9]+')),
@@ -368,14 +373,25 @@ def do_step(W, step):
     if op == 'prim':
         p = rng.choice(simple)
         f, g = rand_facets(rng, W.kind[p])
+        # lifting a constraint the parent has is a request like any other: the new type carries exactly what was asked for
+        lifted = []
+        for k, none in (('pattern', None), ('values', []), ('max_len', decimal.Decimal('inf'))):
+            if k in W.facets[p] and k not in f and rng.random() < .5:
+                f[k] = none
+                lifted.append(k)
+        if lifted:
+            W.R.count('constraints_lifted', len(lifted))
         kw = dict(f, **g)
         if not kw:
             kw = {'nillable': False}
             g = kw
-        W.log.append((step, 'prim', p, sorted(kw)))
+        W.log.append((step, 'prim', p, sorted(kw), 'lifted:%s' % ','.join(lifted)))
         new = W.pool[p](**kw)
         name = W.fresh('P')
-        W.add(name, new, W.kind[p], parents=[p], facets=dict(W.facets[p], **dict(f, **({'nillable': g['nillable']} if 'nillable' in g else {}))))
+        eff = dict(W.facets[p], **dict(f, **({'nillable': g['nillable']} if 'nillable' in g else {})))
+        for k in lifted:
+            del eff[k]
+        W.add(name, new, W.kind[p], parents=[p], facets=eff)
         return op, name, set(), {'requested': kw, 'parent': p}
     if op == 'ccust':
         c = rng.choice(complexes + arrays)
@@ -562,14 +578,45 @@ def check_order(W, step):
             viol(W, 'type info order of %s is %r, declared %r' % (n, own, W.decl[n]), 'field_order:type_info', step)
 
 
-def check_outputs(W, step):
+def _long_lived_outputs(W, step, n, m, inst, vals, want):
+    from lxml import etree
+    R = W.R
+    # the same through protocol instances that live as long as the history (they have written earlier states of the class)
+    if not hasattr(W, 'prots'):
+        from spyne.protocol.json import JsonDocument
+        from spyne.protocol.yaml import YamlDocument
+        from spyne.protocol.msgpack import MessagePackDocument
+        from spyne.protocol.xml import XmlDocument
+        W.prots = {'json': JsonDocument(), 'yaml': YamlDocument(), 'msgpack': MessagePackDocument(), 'xml': XmlDocument()}
+    for pn, prot in sorted(W.prots.items()):
+        try:
+            if pn == 'xml':
+                par = etree.Element('r')
+                prot.to_parent(None, m, inst, par, m.get_namespace() or 'urn:x')
+                got = [etree.QName(c).localname for c in par[0]]
+            else:
+                d = prot._object_to_doc(m, inst)
+                got = [k.decode() if isinstance(k, bytes) else k for k in d.keys()] if isinstance(d, dict) else None
+        except Exception as e:
+            R.skip('%s output through a long-lived protocol not producible: %s' % (pn, type(e).__name__))
+            continue
+        if got is None:
+            continue
+        R.count('long_lived_protocol_outputs')
+        if [k for k in got if k in vals] != want:
+            viol(W, '%s output of %s through a protocol instance that has served the class before lists fields %r, expected %r' % (
+                pn, n, got, want), 'field_order:long_lived_protocol:%s' % pn, step)
+
+
+def check_outputs(W, step, fresh=True):
     """field order in schema sequence and protocol output for a few models."""
     from spyne.util.dictdoc import get_object_as_json, get_object_as_simple_dict
     from spyne.util.xml import get_object_as_xml
     from lxml import etree
     R = W.R
     names = [n for n in W.pool if W.kind[n] == 'complex' and n in W.decl]
-    for n in W.rng.sample(names, min(3, len(names))):
+    fresh_too = set(W.rng.sample(names, min(3, len(names)))) if fresh else set()
+    for n in names:     # (every class at every step through the long-lived protocols; a sample of them through fresh ones)
         m = W.pool[n]
         if m.Attributes.max_occurs != 1:
             continue
@@ -590,6 +637,9 @@ def check_outputs(W, step):
         except Exception:
             continue
         want = [k for k in exp if k in vals]
+        _long_lived_outputs(W, step, n, m, inst, vals, want)
+        if n not in fresh_too:
+            continue
         try:
             js = get_object_as_json(inst, m, complex_as=dict)
             got = [k for k, _ in json.loads(js if isinstance(js, str) else b''.join(js) if not isinstance(js, bytes) else js,
@@ -701,6 +751,8 @@ def run_history(R, seed, hist_id, steps, with_schema=True):
         if newname is not None and 'requested' in info:
             check_new(W, step, op, newname, info)
         check_order(W, step)
+        if step % 3 == 0 or op in ('append', 'insert'):
+            check_outputs(W, step, fresh=False)
         R.nontrivial(op, W.kind.get(newname or info.get('target')), tuple(sorted(map(str, info.get('requested', {})))))
         before = after
         if newname is not None and with_schema and '__error__' not in sch_after:
@@ -757,6 +809,21 @@ def check_new(W, step, op, newname, info):
             ok = got == v
         if not ok:
             viol(W, '%s: requested %s=%r, new model has %r' % (op, k, v, got), 'requested_constraint_missing:%s' % k, step)
+    # ... and nothing else: what was not asked for is what the parent has
+    if op == 'prim':
+        PA = parent.Attributes
+        for k in ('gt', 'ge', 'lt', 'le', 'max_str_len', 'total_digits', 'fraction_digits', 'min_len', 'max_len', 'pattern', 'values',
+                  'nillable', 'min_occurs', 'max_occurs', 'default', 'format', 'encoding'):
+            if k in req or not hasattr(PA, k):
+                continue
+            if k == 'max_str_len' and 'total_digits' in req:
+                continue        # (documented: derived from total_digits)
+            W.R.count('unrequested_attributes_compared')
+            a, b = getattr(PA, k), getattr(A, k, None)
+            if k == 'values':
+                a, b = set(a or ()), set(b or ())
+            if a != b and getattr(a, 'pattern', a) != getattr(b, 'pattern', b):
+                viol(W, '%s asking for %r changed %s from %r to %r' % (op, sorted(req), k, a, b), 'unrequested_constraint_changed:%s' % k, step)
     if 'child_attrs' in req:
         for fld, ca in req['child_attrs'].items():
             ft = new._type_info[fld]
@@ -806,7 +873,74 @@ def final_digest(W):
     return out
 
 
+ALIAS_POOL = [dict(max_len=10), dict(nillable=False), dict(min_occurs=1), dict(min_len=2, max_len=8),
+              {'s': dict(min_len=1)}, {'t': dict(max_len=5), 's': dict(nillable=False)}, {'n': dict(min_occurs=1)}]
+ALIAS_ATTRS = ('nillable', 'min_occurs', 'max_occurs', 'exc', 'max_len', 'min_len', 'default', 'pattern')
+
+
+def aliasing_world(seedval, share):
+    """A short history of customize() calls whose dict arguments are either the same few objects handed in again and again
+    (what module-level constants are) or private deep copies of them; then fields are added to the roots.
+    -> description of every field of every variant"""
+    import copy
+    import random
+    from spyne import ComplexModel, Unicode, Integer
+    r = random.Random(seedval)
+    pool = copy.deepcopy(ALIAS_POOL)
+    pick = (lambda i: pool[i]) if share else (lambda i: copy.deepcopy(ALIAS_POOL[i]))
+    tag = '%x%s' % (seedval & 0xffffff, 's' if share else 'c')
+    roots = [type('AR%d_%s' % (i, tag), (ComplexModel,), {'__namespace__': 'urn:vf:c15a', 's': Unicode, 't': Unicode, 'n': Integer})
+             for i in range(3)]
+    variants = []
+    log = []
+    for step in range(r.randint(2, 7)):
+        c = r.choice(roots + variants)
+        kw = {}
+        for which in r.sample(['child_attrs_all', 'child_attrs', 'child_attrs_noexc'], r.randint(1, 2)):
+            kw[which] = pick(r.randrange(0, 4) if which == 'child_attrs_all' else r.randrange(4, 7))
+        log.append((roots.index(c) if c in roots else 'v%d' % variants.index(c), sorted((k, ALIAS_POOL.index(v) if v in ALIAS_POOL else repr(v))
+                                                                                   for k, v in kw.items())))
+        try:
+            variants.append(c.customize(type_name='AV%d_%s' % (step, tag), **kw))
+        except Exception as e:
+            log.append(('raised', type(e).__name__))
+    for i, root in enumerate(roots):
+        root.append_field('later', Unicode)
+        if r.random() < .5:
+            root.insert_field(0, 'first', Integer)
+    desc = []
+    for v in roots + variants:
+        fl = v.get_flat_type_info(v)
+        desc.append([(k, [repr(getattr(t.Attributes, a, None)) for a in ALIAS_ATTRS]) for k, t in fl.items()])
+    return desc, log, pool
+
+
+def aliasing(R, seed, h):
+    """handing customize() the same dict object twice is the same as handing it two equal dicts"""
+    for i in range(12):
+        seedval = (seed * 1000003 + h * 101 + i) & 0x7fffffff
+        try:
+            a, log, pool = aliasing_world(seedval, True)
+            b, _, _ = aliasing_world(seedval, False)
+        except Exception as e:
+            R.skip('aliasing scenario raised %s' % type(e).__name__)
+            continue
+        R.evaluations += 1
+        R.count('aliasing_scenarios')
+        if a != b:
+            where = [(vi, x[0], [ALIAS_ATTRS[j] for j in range(len(ALIAS_ATTRS)) if x[1][j] != y[1][j]])
+                     for vi, (fa, fb) in enumerate(zip(a, b)) for x, y in zip(fa, fb) if x != y][:4]
+            R.violation('customize() calls that are handed the same argument objects again produce other types than the same calls '
+                        'handed equal copies: (model index, field, attributes) %r; calls %r' % (where, log),
+                        {'seed': seed, 'history': h, 'aliasing': i, 'seedval': seedval}, mech='argument_aliasing:%s' % ','.join(sorted(set(
+                            a_ for w in where for a_ in w[2]))))
+        else:
+            R.nontrivial('aliasing', len(log), tuple(sorted(set(k for _, kws in log if isinstance(kws, list) for k, _ in kws))))
+
+
 def run(spec, R):
+    for h in range(spec['first'], spec['first'] + spec['histories']):
+        aliasing(R, spec['seed'], h)
     steps_range = (30, 45) if spec['tier'] == 'quick' else (40, 80)
     seeds = (1, 2, 3) if spec['tier'] == 'quick' else (1, 2, 3, 4, 5, 6, 7)
     for h in range(spec['first'], spec['first'] + spec['histories']):
